@@ -45,6 +45,21 @@ T = {
  "C19-m2": ("datetime.go: SECOND computed as msec/1000 (truncation toward zero)", "unit SECOND, instant before 1970 with a fractional second >= 1 ms"),
  "C20-m1": ("javascript.go: argument cleanup skipped when the script throws (rebased)", "a throwing call with argument X, then a call on the recycled VM that references X"),
  "C20-m2": ("javascript.go: node-JSON cache keyed by node address instead of ID (rebased)", "a node released and re-acquired between two javascript_with_context calls"),
+ # round 2 (a second, independent set of sub-agents, after every round-1 change was detected)
+ "C02-r2m1": ("value.go normalizeAndSaveValue: a declared type makes keep_empty_or_null forget a null result", "a field with both type and keep_empty_or_null whose value is null / absent"),
+ "C02-r2m2": ("invokeCustomFunc.go: ignore_error hands back the failed function's return value instead of null", "custom_func with ignore_error whose function fails while returning a non-nil first value, with keep_empty_or_null"),
+ "C05-r2m1": ("flatfile hierarchyReader.go: EOF unwind loops recNext before looking at the target", "last target instance closed by end of input AND a later minimum in the same unwind unmet (csv2 / fixedlength2)"),
+ "C05-r2m2": ("edi/reader.go segNext: 'occurred at least once' taken for 'minimum met'", "a segment or group with min >= 2 occurring between 1 and min-1 times"),
+ "C06-r2m1": ("old csv reader jumpTo counts csv rows instead of physical lines", "header_row_index / data_row_index skipping over a quoted multi-line record or blank lines"),
+ "C06-r2m2": ("old fixed-length lineToColumnValue: ASCII fast path slices bytes when only the prefix up to the column end is checked wrongly", "a column whose range is preceded by / contains multi-byte runes in a particular byte/rune count coincidence"),
+ "C09-r2m1": ("schema.go: BOM sniffing with ONE Read of 3 bytes instead of ios.StripBOM", "a source whose first Read returns fewer than 3 bytes of a BOM-prefixed input"),
+ "C09-r2m2": ("edi/reader2.go: segment scanner resumes the delimiter search mid-segment and forgets the release character before the resume point", "release character + escaped segment delimiter falling exactly at a buffer-fill boundary"),
+ "C13-r2m1": ("idr/node.go reset() stops clearing Type/Data/FormatSpecific", "an XML/JSON transform earlier in the process, then a flat-format transform whose CreateNode obtains the recycled node"),
+ "C13-r2m2": ("javascript.go getProgram: cache key is the whitespace-collapsed script", "two scripts that differ only in whitespace that matters (inside a literal, or a line break ending a // comment)"),
+ "C14-r2m1": ("old fixed-length decl.go: per-envelope columnsDone flags hoisted onto the shared EnvelopeDecl", "two goroutines on one Schema, both inside a multi-line envelope (by_rows >= 2 or header/footer)"),
+ "C14-r2m2": ("idr/query.go MatchAny evaluates the cached xpath expression itself instead of a per-query clone", "two goroutines whose FINAL_OUTPUT xpath text is the same, both inside the reader's record filter; wrong results only with a boolean-valued filter, otherwise a pure data race"),
+ "C16-r2m1": ("edi/reader.go Read: 'all declarations completed' tested before the kind of error", "bounded last top-level declaration already at max, fault at end of input or between interchanges -> clean EOF"),
+ "C16-r2m2": ("idr/xmlreader.go: any tokenizer error after the root's end tag returned as io.EOF", "fault positioned after </root> (end of input, trailing whitespace / comment / PI)"),
 }
 res = {}
 p = os.path.join(root, "bin", "seed_results.txt")
